@@ -7,6 +7,7 @@ import (
 	"compress/gzip"
 	"context"
 	"crypto/sha256"
+	"encoding/hex"
 	"fmt"
 	"io"
 	mrand "math/rand"
@@ -539,8 +540,12 @@ func runC19(r *mrand.Rand, bin, scratch string, n int) {
 		if ci == 1 {
 			budget = n / 4
 		}
-		w.requests(r, s, budget, stats)
-		if ci == 0 {
+		if replayLines != nil {
+			w.replay(s, stats)
+		} else {
+			w.requests(r, s, budget, stats)
+		}
+		if ci == 0 && replayLines == nil {
 			for i, l := range cfg.logs {
 				emit("mon_client_verifies|%s|%d|=>|%s", l.short, w.logs[i].size, w.monClient(s, l, w.logs[i]))
 			}
@@ -557,6 +562,38 @@ func runC19(r *mrand.Rand, bin, scratch string, n int) {
 	sort.Strings(ks)
 	for _, k := range ks {
 		emit("# category %s %d", k, stats[k])
+	}
+}
+
+// replay re-issues the requests named by the lines of a replay file (req, mon_confined, mon_layout)
+// against this configuration; the directories are a fresh world of the same shape
+func (w *world19) replay(s *server, stats map[string]int) {
+	seen := map[string]bool{}
+	for _, f := range replayLines {
+		if len(f) < 3 || (f[0] != "req" && f[0] != "mon_confined" && f[0] != "mon_layout") {
+			continue
+		}
+		hb, err1 := hex.DecodeString(strings.TrimPrefix(f[1], "-"))
+		tb, err2 := hex.DecodeString(strings.TrimPrefix(f[2], "-"))
+		if err1 != nil || err2 != nil || len(tb) == 0 || seen[f[1]+"|"+f[2]] {
+			continue
+		}
+		seen[f[1]+"|"+f[2]] = true
+		host, target := string(hb), string(tb)
+		resp := s.get(host, target)
+		emit("req|%s|%s|=>|%s", hx(hb), hx(tb), renderResp(resp))
+		emit("mon_confined|%s|%s|=>|%s", hx(hb), hx(tb), w.monConfined(host, target, resp))
+		stats["replay"]++
+		if f[0] == "mon_layout" {
+			for _, e := range append(append([]entryCfg{}, w.cfg.logs...), w.cfg.wits...) {
+				rel := strings.TrimPrefix(target, e.prefix+"/")
+				if e.host == host && strings.HasPrefix(target, e.prefix+"/") && w.rootOf(e.dir).files[rel].kind == "reg" {
+					_, verdict := w.monLayout(s, layoutReq{host, target, w.rootOf(e.dir), rel})
+					emit("mon_layout|%s|%s|=>|%s", hx(hb), hx(tb), verdict)
+					break
+				}
+			}
+		}
 	}
 }
 
